@@ -212,6 +212,11 @@ def terminator_rule(repo: Repo, rep: Report, rid: str) -> None:
         detail = "no delegated _write_array call"
         for c in calls:
             arr = c.args[1] if len(c.args) > 1 else None
+            if isinstance(arr, ast.Name):
+                # a local holding the terminated list
+                defs = [s.value for s in walk_body(f.node.body) if isinstance(s, ast.Assign) and len(s.targets) == 1 and norm(s.targets[0]) == arr.id]
+                if len(defs) == 1:
+                    arr = defs[0]
             if isinstance(arr, ast.List) and arr.elts and isinstance(arr.elts[-1], ast.Call) and call_name(arr.elts[-1]) == "__default__" \
                     and any(isinstance(e, ast.Starred) for e in arr.elts[:-1]):
                 ok = True
